@@ -1211,6 +1211,7 @@ func (in *Interp) next(instr *ssa.Next, itv Value) Value {
 	op := itv.(*Opaque)
 	switch it := op.Data.(type) {
 	case *mapIterSnap:
+		in.noSpec("map iterator advance")
 		for it.pos < len(it.order) {
 			k := it.keys[it.order[it.pos]]
 			it.pos++
@@ -1222,6 +1223,7 @@ func (in *Interp) next(instr *ssa.Next, itv Value) Value {
 		}
 		return Tuple{False, nil, nil}
 	case *strIter:
+		in.noSpec("string iterator advance")
 		if it.pos < len(it.s) {
 			i := it.pos
 			it.pos++
